@@ -121,7 +121,13 @@ func ZZ_C12_RemovalHistory() {
 			_, oerr = r.PrepareRemoveDisk(name)
 		case 2:
 			opname = "Snapshot"
-			oerr = r.Snapshot("n"+names[step], zzNondetBool("user"), "t")
+			// a new name, or the name of a snapshot that existed before (removed or dropped
+			// by a revert): users do re-create "daily" after deleting it
+			sn := "n" + names[step]
+			if reuse := zzConcretize(zzChoice("reuse", 3)); reuse > 0 {
+				sn = names[n-reuse]
+			}
+			oerr = r.Snapshot(sn, zzNondetBool("user"), "t")
 		default:
 			opname = "Revert"
 			rn, e := r.Revert(name, "t")
@@ -151,4 +157,37 @@ func ZZ_C12_RemovalHistory() {
 		_ = saved
 	}
 	zzReach("C12.removal.done")
+}
+
+
+// C06 (protection index across reopen): whatever mix of user-created and automatic
+// snapshots the chain holds, the reopened replica's block map protects every
+// user-created snapshot (SnapIndx is at or above the newest one, the per-file flags
+// are the snapshots' own), also after a revert to any of them.
+func ZZ_C06_ReopenProtection() {
+	n := zzParam("SNAPS", 4)
+	fs := zzInstallFS()
+	r, err := zzOpenReplica()
+	zzAssume(err == nil)
+	r.mode = types.RW
+	names := []string{"s0", "s1", "s2", "s3", "s4", "s5"}
+	for i := 0; i < n; i++ {
+		zzAssume(r.Snapshot(names[i], zzNondetBool("user"), "t") == nil)
+	}
+	zzWellFormed("C06.protection.live", r)
+	if zzNondetBool("revert") {
+		ch, _ := r.Chain()
+		rn, e := r.Revert(ch[1+zzConcretize(zzChoice("target", len(ch)-1))], "t")
+		zzAssume(e == nil && rn != nil)
+		r = rn
+		zzWellFormed("C06.protection.reverted", r)
+		zzReach("C06.protection.reverted")
+	}
+	fs.Revive()
+	rr, oerr := zzOpenReplica()
+	zzAssert(oerr == nil && rr != nil, "C06.protection.reopen-failed")
+	if rr != nil {
+		zzWellFormed("C06.protection.reopened", rr)
+	}
+	zzReach("C06.protection.done")
 }
